@@ -41,6 +41,7 @@ def run_mutant(m, tmp):
 def main():
     ap = argparse.ArgumentParser()
     ap.add_argument("--prop"); ap.add_argument("--id"); ap.add_argument("-j", type=int, default=6)
+    ap.add_argument("--json", help="also write a summary (for the evidence file of a thorough run) to this path")
     a = ap.parse_args()
     muts = json.load(open(os.path.join(VERIF, "selftest", "mutants.json")))
     if a.prop: muts = [m for m in muts if m["prop"] == a.prop]
@@ -48,14 +49,20 @@ def main():
     subprocess.run([os.path.join(VERIF, "build.sh")], check=True, stdout=subprocess.DEVNULL)
     tmp = tempfile.mkdtemp(prefix="govc-selftest-")
     bad = 0
+    rows = []
     try:
         with ThreadPoolExecutor(a.j) as ex:
             for m, status, info in ex.map(lambda m: run_mutant(m, tmp), muts):
                 print("%-12s %-4s %-34s %s" % (status, m["prop"], m["id"], info.replace("\n", " ")[:220]))
+                rows.append({"mutant": m["id"], "file": m["file"], "status": status, "failed_obligations": info[:300] if status.startswith("KILLED") else ""})
                 if status in ("SURVIVED", "STALE"): bad += 1
     finally:
         shutil.rmtree(tmp, ignore_errors=True)
     print("mutants: %d, not killed: %d" % (len(muts), bad))
+    if a.json:
+        json.dump({"what": "must-fail self-test: deliberate property-breaking edits of /repo, each applied to a scratch copy; the check must exit 1",
+                   "mutants": len(muts), "killed": len(muts) - bad, "not_killed": [r["mutant"] for r in rows if r["status"] in ("SURVIVED", "STALE")], "results": rows},
+                  open(a.json, "w"), indent=1)
     sys.exit(1 if bad else 0)
 
 main()
